@@ -5,7 +5,7 @@ from ..driver import drive, result_of
 from ..searchmon import SweepMon
 
 PROP = "C08"
-FAMS = ["hugeneg", "negbern", "nonpos3", "cl_negdist", "bern", "quant5", "neg", "const", "zero", "tied", "twoval", "noisy", "unit", "large", "incr", "decr", "cl_hump", "cl_garland",
+FAMS = ["int3wide", "hugeneg", "negbern", "nonpos3", "cl_negdist", "bern", "quant5", "neg", "const", "zero", "tied", "twoval", "noisy", "unit", "large", "incr", "decr", "cl_hump", "cl_garland",
         "cl_step", "drift"]
 RULE = ("SOO, StoSOO (k in {1,2,3,5,default}, delta in {default,0.01,0.5}), DOO (default delta and 4 user deltas) on "
         "all partitions, d=1..3; depth caps: the smallest cap holding the budget (half of the runs) and caps one or "
